@@ -22,7 +22,11 @@ Inductive op :=
                                           at 0, sets with no members, gauges) or any other map *)
 | ORecv (r : nat) (d : datapoint)
 | OMerge (into from : nat)             (* regs[into].Merge(regs[from]); regs[from] is dead afterwards *)
-| OMergeMaps (dst : nat) (srcs : list nat). (* regs[dst] = MergeMaps(srcs); the sources are dead *)
+| OMergeMaps (dst : nat) (srcs : list nat) (* regs[dst] = MergeMaps(srcs); the sources are dead *)
+| OSplitMerge (r : nat).               (* regs[r] = MergeMaps(parts of regs[r].SplitByTags(header keys)): the forwarder
+                                          groups a flush by header tags and the ingesting side merges the requests.  The
+                                          parts are a partition of the map, so for the model this is MergeMaps [regs[r]]:
+                                          nothing lost, nothing doubled, whatever the key list *)
 
 Inductive batch :=
 | BMap (es : list entry) (ds : list datapoint) (* a map holding the series es, then built up by Receive,
@@ -47,6 +51,7 @@ Definition exec (rs : list mmap) (o : op) : list mmap :=
   | ORecv r d => set_reg rs r (receive (reg rs r) d)
   | OMerge i f => set_reg rs i (merge (reg rs i) (reg rs f))
   | OMergeMaps d srcs => set_reg rs d (merge_maps (map (reg rs) srcs))
+  | OSplitMerge r => set_reg rs r (merge_maps [reg rs r])
   end.
 
 Definition run_prog (n : nat) (p : list op) : list mmap := fold_left exec p (repeat empty_map n).
@@ -101,6 +106,7 @@ Definition exec_leaves (ls : list (list mmap)) (o : op) : list (list mmap) :=
   | ORecv r d => set_lreg ls r (lreg ls r ++ [singleton d])
   | OMerge i f => set_lreg ls i (lreg ls i ++ lreg ls f)
   | OMergeMaps d srcs => set_lreg ls d (concat (map (lreg ls) srcs))
+  | OSplitMerge _ => ls
   end.
 Definition run_leaves (n : nat) (p : list op) : list (list mmap) := fold_left exec_leaves p (repeat [] n).
 
